@@ -251,6 +251,38 @@ class Harness:
         for st in _fork_map(worker, list(range(min(shards, max(1, len(keys)))))):
             self.stats.merge(st)
 
+    def run_machine(self, machine_factory: Callable[[Stats], Any], n_machines: int, steps: int, shards: int = 1,
+                    classify: Optional[Callable] = None, name: str = "machine", shrink: bool = True):
+        """Stateful search: machine_factory(stats) returns a RuleBasedStateMachine subclass whose rules raise
+        Violation; each shard runs n_machines histories of up to `steps` steps."""
+        seeds = [shard_seed(self.seed, hash_name(name) + i) for i in range(shards)]
+
+        def worker(sd: int) -> Stats:
+            import hypothesis
+            from hypothesis import HealthCheck, Phase, settings
+            from hypothesis.stateful import run_state_machine_as_test
+            st = Stats()
+            cls = machine_factory(st)
+            phases = [Phase.generate, Phase.shrink] if shrink else [Phase.generate]
+            sett = settings(max_examples=n_machines, stateful_step_count=steps, database=None, deadline=None,
+                            report_multiple_bugs=False, suppress_health_check=list(HealthCheck), phases=phases,
+                            print_blob=False, verbosity=hypothesis.Verbosity.quiet)
+            try:
+                run_state_machine_as_test(hypothesis.seed(sd)(cls), settings=sett)
+            except Violation as v:
+                fid = classify(v) if classify else None
+                if fid and self.listed(fid):
+                    st.known[fid] += 1
+                else:
+                    st.violations.append({"msg": v.msg, "case": v.case, "sig": v.sig})
+            except hypothesis.errors.Flaky as e:
+                raise Inconclusive("flaky state machine: %r" % (e,))
+            st.frozen = False
+            return st
+
+        for st in _fork_map(worker, seeds):
+            self.stats.merge(st)
+
     # ---- finishing -----------------------------------------------------------------------------
     def finish(self) -> int:
         st = self.stats
